@@ -95,6 +95,27 @@ def bindSingular {α β : Type} (conv : β → Option α) : List β → Option (
   | [] => some none
   | t :: _ => (conv t).map some
 
+/-- what binding one singular query parameter does to the request. -/
+inductive QBound (α : Type)
+  | rejected        -- 400 with a violation naming the field
+  | absent          -- the field is left as it is
+  | bound (v : α)
+deriving DecidableEq, Repr
+
+/-- `bindQueryParams` for one singular parameter, over the regenerated branch for a parameter WITHOUT occurrences
+(`Gen.Pipeline.queryAbsent*`): refused exactly when the route's table marks it required — the field's own presence
+discipline (`optional` keyword or not) is no input of this function — and skipped otherwise; with occurrences, the first
+one is converted. -/
+def bindQueryParam {α β : Type} (required : Bool) (conv : β → Option α) (occ : List β) : QBound α :=
+  if occ.isEmpty && Gen.Pipeline.queryAbsentTest == "len(values) == 0" then
+    if required && Gen.Pipeline.queryAbsentRequiredTest == "param.Required" && Gen.Pipeline.queryAbsentRequiredReturns then .rejected
+    else .absent
+  else
+    match bindSingular conv occ with
+    | none => .rejected
+    | some none => .absent
+    | some (some v) => .bound v
+
 /-- value range of each integer kind of protobuf. -/
 def kindRange (kind : String) : Option (Int × Int) :=
   match kind with
